@@ -6,6 +6,7 @@ package c14
 
 import (
 	"fmt"
+	"io"
 	"time"
 
 	"github.com/enfein/mieru/v3/pkg/appctl/appctlpb"
@@ -15,6 +16,7 @@ import (
 	"verif/harness/c02"
 	"verif/harness/reg"
 	"verif/harness/wire"
+	"verif/harness/world"
 	"verif/harness/xfer"
 )
 
@@ -23,10 +25,11 @@ func init() {
 		ID:    "C14",
 		Level: "exploration",
 		Rule: "sweep over MTU {1280,1281,1399,1400,1499,1500} x padding maxima {0,1,128,255}^2 (and unset) x low-entropy mode {off,32,40,48,56} x write sizes {1, frag-1, frag, frag+1, 3*frag, first write 0/1/1024/1025} x both handshake modes, with the padding-length draws forced to their maximum and, separately, seeded; one forced drop per run so that retransmissions are on the wire; " +
-			"every datagram on the tap is measured against the MTU and decoded by the reference codec (length fields vs actual lengths, 1024-byte session payloads, 32768/32764-byte fragments); plus the C02 fault exploration with the same monitor; TCP fragments via the C01 size matrix. distinct = distinct configurations",
+			"plus sequences of two sessions whose piggy-backed first writes differ in size {1,500,900,940,960,1000,1024} for four user names and MTUs {1280,1300,1366,1400}; every datagram on the tap is measured against the MTU and decoded by the reference codec (length fields vs actual lengths, 1024-byte session payloads, 32768/32764-byte fragments); plus the C02 fault exploration with the same monitor; TCP fragments via the C01 size matrix. distinct = distinct configurations",
 		Assumptions: []string{"both ends are configured with the same MTU (the server's own MTU setting bounds what the server emits)"},
 		Units: func(tier string) []runner.Unit {
 			us := sweep(tier)
+			us = append(us, sequences(tier)...)
 			us = append(us, c02.Units("C14", wire.MonitorC14, "faults1-,periodic")(tier)...)
 			return us
 		},
@@ -90,3 +93,84 @@ func sweep(tier string) []runner.Unit {
 	}
 	return us
 }
+
+// sequences: several sessions one after another whose first writes (piggy-backed on the open
+// request) differ in size, for several users and MTUs: anything remembered from an earlier
+// segment must not bound a later, larger one.
+func sequences(tier string) []runner.Unit {
+	var us []runner.Unit
+	firsts := []int{1, 500, 900, 940, 960, 1000, 1024}
+	for ui, user := range []string{"alice", "erin", "frank", "limited"} {
+		ui, user := ui, user
+		us = append(us, runner.Unit{Name: "first-write-sequences-" + user, Cost: 4, Run: func(u *runner.U) {
+			for _, mtu := range []int{1280, 1300, 1366, 1400} {
+				for _, a := range firsts {
+					for _, b := range firsts {
+						if a == b {
+							continue
+						}
+						name := fmt.Sprintf("user=%s mtu=%d first-writes=[%d %d]", user, mtu, a, b)
+						u.Sample(name)
+						u.Explore(explore.Bound{}, name, func(ctl *explore.Ctl) explore.Result {
+							v := &xfer.Verdict{Prop: "C14"}
+							usr := &appctlpb.User{Name: &user, Password: strPtr("pw")}
+							cfg := world.Config{UDP: true, MTU: mtu, Users: []*appctlpb.User{usr}, Seed: int64(ui*1000 + a + b), Horizon: 60 * time.Second, NoWait: true}
+							ex := world.Run(cfg, ctl, func(w *world.World) {
+								w.Go("srv", "server", func() {
+									for {
+										c, _, err := w.Accept()
+										if err != nil {
+											if !w.Srv.IsRunning() {
+												return
+											}
+											continue
+										}
+										w.Go("echo", "server", func() {
+											buf := make([]byte, 4096)
+											n, _ := c.Read(buf)
+											c.Write(buf[:n])
+											c.Close()
+										})
+									}
+								})
+								for k, sz := range []int{a, b} {
+									c, err := w.Dial(1000 + k)
+									if err != nil {
+										v.Add("setup", "dial: %v", err)
+										return
+									}
+									// 0-RTT: the request and the data travel in the open request (sz-10 bytes of data)
+									n := sz - 10
+									if n < 1 {
+										n = 1
+									}
+									c.Write(world.Pattern(k, 'c', 0, n))
+									buf := make([]byte, n)
+									io.ReadFull(c, buf)
+									c.Close()
+								}
+								w.Shutdown()
+							})
+							for _, pn := range ex.Panics {
+								v.Add("panic", "%s", pn)
+							}
+							wire.MonitorC14(xfer.Params{UDP: true, MTU: mtu}, ex, v)
+							out := "ok"
+							if len(v.Viol) > 0 {
+								out = v.Viol[0].Signature
+							}
+							return explore.Result{Outcome: out, Violations: v.Viol, Steps: ex.Steps}
+						})
+						u.Distinct(name)
+						if u.Signatures() >= 3 || u.Expired() {
+							return
+						}
+					}
+				}
+			}
+		}})
+	}
+	return us
+}
+
+func strPtr(s string) *string { return &s }
